@@ -1240,10 +1240,13 @@ def order_cases(tier):
 class HistFam(Family):
     """add / remove / update_id / reorder_components histories on one dataset (integer data, + - *
     only); derived components are also added before their inputs.  Observables: `Data.components`
-    (as keys) after every operation; after every remove / update_id / reorder and at the end also
-    the value of every remaining component (or that evaluating it raises).  The Spec removes
-    exactly the dependency closure, renames identifiers everywhere, and reorders without changing
-    anything else."""
+    (as keys) after every operation; after every remove / update_id / reorder, after every call
+    that raised ValueError, and at the end also the value of every remaining component (or that
+    evaluating it raises).  The Spec removes exactly the dependency closure, renames identifiers
+    everywhere, and reorders without changing anything else; the calls the repaired `Data` refuses
+    (remove_component of a pixel component, update_id onto an id in use, add_component onto an id
+    in use for another kind of component: C17's F20-F22) are generated on purpose: the Spec demands
+    the ValueError and that nothing changed."""
     name = "hist"
     exhaustive = False
     batch = 100
@@ -1562,6 +1565,7 @@ PROP = Property(
               "C14.remove_closure", "C14.depClosure_iff_reach", "C14.remove_keeps_inputs", "C14.remove_absent", "C14.remove_spec",
               "C14.reorder_is_permutation", "C14.remove_order_invariant", "C14.reorder_preserves_values",
               "C14.update_id_preserves_order", "C14.update_id_preserves_values",
+              "C14.refusal_exact", "C14.refused_changes_nothing", "C14.call_refines_spec",
               "C14.update_id_breaks_dependents", "C14.parse_print"],
     families=[GramFam(), Bcl(), ExprFam(), ArithFam(), ULink(), ParsedFam(), HistFam()],
     trusted_base=[
@@ -1570,7 +1574,7 @@ PROP = Property(
         "the reference evaluation in harness/props/c14.py only tabulates the operators' graphs (numpy applied to the full arrays); every verdict is computed by the Lean Spec",
     ],
     assumptions=["pixel / world component values are inputs (read from the real dataset); their correctness is C04/C15"],
-    rule="exhaustive: all zero-stride patterns x operators x operand kinds (bcl), all leaf pairs x operators at depth 1 and all views of a fixed tree (expr/arith), all insertion orders of a 5-node dependency pattern x every removal, every component order (reorder_components / derived components added before their inputs) of chains of depth 2-3, a diamond, a pixel input and a cyclic pair x link kinds x every removal (hist); seeded random trees to depth 3/5, user functions, command strings, histories beyond; non-trivial = result with more than one element / history with a removal, update_id or reorder",
+    rule="exhaustive: all zero-stride patterns x operators x operand kinds (bcl), all leaf pairs x operators at depth 1 and all views of a fixed tree (expr/arith), all insertion orders of a 5-node dependency pattern x every removal, every component order (reorder_components / derived components added before their inputs) of chains of depth 2-3, a diamond, a pixel input and a cyclic pair x link kinds x every removal, the refused calls (pixel component as removal victim, update_id onto stored / pixel / derived ids from a stored, derived, pixel or unknown id, add_component across kinds) on every insertion order (hist); seeded random trees to depth 3/5, user functions, command strings, histories beyond; non-trivial = result with more than one element / history with a removal, update_id or reorder",
 )
 
 for _f, _share in zip(PROP.families, (0.4, 1.0, 2.0, 1.0, 0.7, 1.5, 1.2)):
